@@ -262,7 +262,7 @@ func checkC01(c *Ctx) {
 	for _, fn := range p.FuncsInPkg("admin") {
 		if len(allCalls(fn, isBatchEnqueue)) > 0 {
 			nPub++
-			ackAfterEnqueue(c, "C01.R3", fn, false)
+			ackAfterEnqueue(c, "C01.R3", p.View(fn), false) // response helpers of the package are part of the handler
 		}
 	}
 	c.Floor("C01.R3", "publish_handlers", nPub, 2)
